@@ -182,7 +182,9 @@ class Rewriter:
                 else:
                     self.t = self.t[:mm.start()] + self.t[e:].lstrip(" ")
                 n += 1
-            elif re.match(r"#\[cfg\(debug_assertions\)\]$", attr):
+            elif re.match(r"#\[cfg\(debug_assertions\)\]$", attr) or (re.match(r'#\[cfg\(not\(feature = "([A-Za-z0-9_-]+)"\)\)\]$', attr) and re.match(r'#\[cfg\(not\(feature = "([A-Za-z0-9_-]+)"\)\)\]$', attr).group(1) in getattr(self, "cfg_on", ())):
+                # R19n (additive, same opt-in as R19): `#[cfg(not(feature = "F"))]` with F in `cfg_on=` - the guarded
+                # field / initialiser / statement is dropped like an R15 item (the text of the build WITH F is verified)
                 # R15: the guarded statement / struct field / field initialiser is dropped together with the
                 # attribute (debug-only bookkeeping: checkout ids used for tracing).  Dropped text ends at the
                 # first `;` or `,` at bracket depth 0 (or before a closing brace).
@@ -207,7 +209,7 @@ class Rewriter:
                 if j < len(self.t) and self.t[j] == "\n" and a0 == ls:
                     j += 1
                 self.t = self.t[:a0] + self.t[j:]
-                self.note("R15")
+                self.note("R15" if "debug_assertions" in attr else "R19n")
                 n += 1
             elif attr.startswith("#[cfg("):
                 raise Unsupported("unsupported construct: conditional compilation %s inside %s" % (attr, self.what))
@@ -392,6 +394,9 @@ class Rewriter:
         ne = 0
         t, k = re.subn(r"\bself\.as_mut\(\)\s*\.project\(\)(?!\s*\.)", "(&mut *self)", t)
         ne += k
+        if getattr(self, "proj_enums", None):  # R6e (additive): `match self.project() {` where `self: Pin<&mut Self>` IS the enum
+            t, k = re.subn(r"\bself\.project\(\)(?=\s*\{)", "(&mut *self)", t)
+            ne += k
         t, k = re.subn(r"\(&mut self\.([A-Za-z_][A-Za-z0-9_]*)\)\s*\.project\(\)(?!\s*\.)", r"(&mut self.\1)", t)
         ne += k
         for proj, enum in getattr(self, "proj_enums", {}).items():
@@ -444,6 +449,9 @@ class Rewriter:
         self.note("R13", n)
 
     def common(self):
+        if getattr(self, "macros", ""):  # opt-in (`:: macros=a,b`): R20 (file-local macro_rules! call expanded from its definition), see rewrites_macro.py
+            import rewrites_macro
+            rewrites_macro.apply(self, self.macros, Unsupported)
         self.r2_attrs_comments()
         self.r1_tracing()
         self.r3_visibility()
@@ -904,10 +912,12 @@ def build_unit(unit_name: str, reach: bool = False, mutate=None, stub=None, nohi
             opts = parse_opts(segs[1:])
             emit_plain(u, kind, fpath, name, opts)
             i += 1
-        elif kind in ("writers", "implset"):
+        elif kind in ("writers", "implset", "fields"):
             # structural frame obligations (no Verus text): checked mechanically on the source
             #   //@ writers <name> [C..] :: <file>[,<file>..] :: <regex of a write to the state> :: fn1,fn2,..
             #       every match of the regex outside test modules must sit inside one of the listed fns
+            #   //@ fields <name> [C..] :: <file> :: <StructName> :: f1,f2,..
+            #       the struct has exactly these fields (new state in a component whose contract is stateless)
             #   //@ implset <name> [C..] :: <file> :: <impl-header regex> :: fn1,fn2,..
             #       the impl block defines exactly these fns (a new method - e.g. an overridden default - is a change
             #       no function contract can see)
@@ -1129,6 +1139,7 @@ def emit_fn(u: Unit, fpath, impl_pat, name, spec: FnSpec, reach: bool, mutate):
     rw.cfg_on = set(x.strip() for x in spec.opts.get("cfg_on", "").split(",") if x.strip())  # R16
     rw.boxpin = spec.opts.get("boxpin") == "1"
     rw.matchrw = spec.opts.get("matchrw", "")
+    rw.macros, rw.macro_src = spec.opts.get("macros", ""), src  # R20
     try:
         t = rw.common()
         if spec.opts.get("mod") and spec.opts.get("rootpaths") == "1":
@@ -1269,6 +1280,21 @@ def structural_check(kind, files, pattern, allowed):
                 if fn not in allowed:
                     line = src.src.count("\n", 0, mm.start()) + 1
                     bad.append("%s:%d `%s` in fn %s" % (fpath, line, src.src[mm.start():mm.end()], fn or "<top level>"))
+    elif kind == "fields":
+        src = source(files)
+        it = src.find_plain("struct", pattern)
+        names = []
+        if it.body_open >= 0:
+            body_lo = it.body_open + 1
+            for mm in re.finditer(r"(?m)^[ \t]*(?:pub(?:\([^)]*\))?\s+)?([a-z_][A-Za-z0-9_]*)\s*:", src.m[body_lo:it.end - 1]):
+                if src._depth_at(body_lo + mm.start(), body_lo) == 0:
+                    names.append(mm.group(1))
+        extra = [n for n in names if n not in allowed]
+        missing = [n for n in allowed if n not in names]
+        if extra:
+            bad.append("%s: struct %s has additional field(s) %s" % (files, pattern, ", ".join(extra)))
+        if missing:
+            bad.append("%s: struct %s no longer has field(s) %s" % (files, pattern, ", ".join(missing)))
     else:
         src = source(files)
         rx = re.compile(pattern)
